@@ -1,6 +1,10 @@
 CONSTANTS
   N = 4
   Hows = {"ok", "retryok", "retry2ok", "close", "hang", "clientgone"}
+  MaxUpd = 0
+  MinUpd = 0
+  Kinds = {}
+  Tos = {}
 INIT Init
 NEXT Next
 INVARIANT Emit
